@@ -304,7 +304,7 @@ func c16Value(r *gen.R, depth int) ref.V {
 func init() {
 	Register(&Property{
 		ID:            "C16",
-		Rule:          "every string of length <= 3 (quick) / <= 4 (thorough) over a 27-symbol hostile alphabet (LF, CR and NUL - written raw in raw strings, escaped in the JSON forms -, quotes, backslash, backtick, brackets, separators, 2-/3-/4-byte code points, U+FFFD, U+007F, U+0080, U+07FF, U+FFFF, U+10FFFF) - exhaustive - plus every code point of a boundary set and seeded strings up to 200 code points with runs of escapes and delimiters: written as a raw string (both spellings of preserved backslashes), as a JSON literal (minimal, all-\\u with surrogate pairs, Go's encoder, \\/), nested in a literal container, and as a quoted identifier (field access and multi-select key) - each must decode to exactly that string / select exactly that member; before the valid spellings of each string, malformed neighbours (valid prefix + bad escape, truncated surrogate pair, unterminated literal) are compiled in the same process so that state left behind by a rejected literal would show; ladder stream: 20-70 keys/strings that are prefixes of one another, as quoted and bare identifiers, raw strings and JSON literals, evaluated shortest-first then longest-first in one process and together inside one expression; generated JSON values (30-40 digit numbers, exponents, nested containers, odd keys) in random legal layouts between backticks must evaluate to themselves; direct oracle: the generator knows the answer; non-trivial = every string/value; long-offsets stream: one escape behind a plain prefix so that its byte offset is at / around 2^8, 2^12, 2^15, 2^16, 2^17, 3*2^16, 2^20 (27 offsets), prefixes of 1-, 2- and 3-byte characters, raw strings, quoted identifiers and JSON literals, with and without a later second escape",
+		Rule:          "every string of length <= 3 (quick) / <= 4 (thorough) over a 27-symbol hostile alphabet (LF, CR and NUL - written raw in raw strings, escaped in the JSON forms -, quotes, backslash, backtick, brackets, separators, 2-/3-/4-byte code points, U+FFFD, U+007F, U+0080, U+07FF, U+FFFF, U+10FFFF) - exhaustive - plus every code point of a boundary set and seeded strings up to 200 code points with runs of escapes and delimiters: written as a raw string (both spellings of preserved backslashes), as a JSON literal (minimal, all-\\u with surrogate pairs, Go's encoder, \\/), nested in a literal container, and as a quoted identifier (field access and multi-select key) - each must decode to exactly that string / select exactly that member; before the valid spellings of each string, malformed neighbours (valid prefix + bad escape, truncated surrogate pair, unterminated literal) are compiled in the same process so that state left behind by a rejected literal would show; ladder stream: 20-70 keys/strings that are prefixes of one another, as quoted and bare identifiers, raw strings and JSON literals, evaluated shortest-first then longest-first in one process and together inside one expression; generated JSON values (30-40 digit numbers, exponents, nested containers, odd keys) in random legal layouts between backticks must evaluate to themselves; direct oracle: the generator knows the answer; non-trivial = every string/value; long-offsets stream: one escape behind a plain prefix so that its byte offset is at / around 2^8, 2^12, 2^15, 2^16, 2^17, 3*2^16, 2^20 (27 offsets), prefixes of 1-, 2- and 3-byte characters, raw strings, quoted identifiers and JSON literals, with and without a later second escape; structural-strings stream: JSON-literal strings of 1..100001 brackets, braces, escaped quotes, commas, colons or escaped backticks after strings that end in an escaped backslash or quote, as elements, keys, values and bare strings",
 		MinNontrivial: 5000,
 		Streams: []Stream{
 			{Name: "exhaustive", N: func(c *Ctx) int { return c16Count(c16Len(c)) }, Run: c16Exhaustive, Exhaustive: true},
